@@ -9,7 +9,7 @@ from ..core import Failure
 from .. import graphs
 
 CHECKERS = ['CTL', 'LTL', 'CTLS']
-NAMINGS = ['int', 'str', 'tuple', 'mixed']
+NAMINGS = ['int', 'str', 'tuple', 'mixed', 'zigzag']
 
 
 class Pristine(object):
